@@ -292,7 +292,8 @@ def execSpecial (pc : Nat) (i : Instr) (stk : List Kind) (blk : List Block) : Li
       | _ => under
     | .FOR_ITER =>
       match stk with
-      | _ :: r => [.norm nx (.obj :: stk) blk, .norm (nx + arg) r blk]
+      -- [C12-ext2 g3] `py.Next(vm.TOP())` may fail with an error other than StopIteration: `return err` with the iterator still on the stack
+      | _ :: r => [.norm nx (.obj :: stk) blk, .norm (nx + arg) r blk, .unw .exception stk blk]
       | _ => under
     | .SETUP_LOOP => [.norm nx stk (⟨.loop, nx + arg, stk.length⟩ :: blk)]
     | .SETUP_EXCEPT => [.norm nx stk (⟨.except, nx + arg, stk.length⟩ :: blk)]
